@@ -51,6 +51,10 @@ CLAIMED = {
    technique="exhaustive small-domain enumeration against a reference framer and an independent validity checker: size limits x payload lengths 0..max+2 and stuffing-heavy contents x flag arrangements x every noise preamble up to 4 (6) bits x every split of the bit stream into two (and many three) pieces; every single-bit and (nearly) every double-bit corruption with bit fixing off and on",
    text="About 110 000 bit streams in the quick tier are fed to the real deframer in pieces. Recovery: every in-bounds frame comes out exactly once, in order, also right after an out-of-bounds frame, shared flags, and noise. Validity: every emitted packet must be encoded (payload + CRC-16/X.25, or within one bit of it when fixing is on) by some flag-delimited, abort-free region of the input bit stream - checked by a validator that knows nothing about the deframer's state machine.",
    note="Trusted: the reference framer and CRC (bitwise from the polynomial), the region validator. Size limits are taken to count the bytes between flags including the CRC, inclusive.", ref="DESIGN.md 3-E6, 5-C13"),
+ "C15": dict(level="exploration", engine="crashx",
+   technique="exhaustive small-domain input enumeration per block family (all bursts up to 7/8 samples over a 4-value alphabet, all bit strings up to 12/14 bits, all sequences up to 3/4 over 9 float specials, all marker placements, an AU header grid with every truncation point, every length for Sample::parse, SigMF metadata mutations and every archive prefix), each case run to quiescence on the real block under catch_unwind with a call cap",
+   text="Every case of each declared finite domain is executed on the real code; the oracle is 'normal output, dropped data or Err - never a panic, an abort, or a block that never goes quiet'. Exhaustive within the declared domains, which are finite slices of an infinite input space: hence exploration, not a claim about all inputs.",
+   note="Trusted: catch_unwind isolation, the call cap as the definition of 'spins forever'. Bit-stream blocks are only fed 0/1.", ref="DESIGN.md 3-E6, 5-C15"),
  "C16": dict(level="model_checking", engine="envx",
    technique="bounded-exhaustive enumeration of downstream consumption schedules (release k slots / nothing, then work()) around the real VectorSource, FileSource and SigMFSource on capacity-2 streams, for data lengths 0-5 x repeat {0,1,2,3,infinite}; explicit-state enumeration of all call sequences on the Repeat API to depth 8 against a reference counter",
    text="Every consumption schedule up to the horizon, from four ring offsets / fill levels, must yield exactly data x repeat, EOF exactly when everything has been emitted and never for an infinite repeat, marker tags once per repetition on its first sample, and no panic; every sequence of again()/done()/count() calls up to depth 8 from finite(0..3) and infinite() must agree with a reference counter and never over/underflow.",
@@ -70,6 +74,8 @@ ENGINES = [
   "kind_free_text": "bounded-exhaustive enumeration of small graph programs in all add orders on the real single-threaded runner"},
 {"name": "hdlc", "path": "/verif/harness/seq/src/hdlc.rs", "serves_properties": ["C13"],
   "kind_free_text": "exhaustive small-domain enumeration of HDLC bit streams, chunkings and corruptions against a reference framer"},
+{"name": "crashx", "path": "/verif/harness/seq/src/crashx.rs", "serves_properties": ["C15"],
+  "kind_free_text": "exhaustive small-domain input enumeration with a no-panic / no-spin oracle"},
  {"name": "mt", "path": "/verif/harness/mt/src", "serves_properties": ["C03", "C04", "C05", "C07"],
   "kind_free_text": "stateless model checking: deviation-bounded DFS over schedules of the real code on the shuttle runtime, timeouts as scheduler choices"},
 ]
